@@ -433,6 +433,9 @@ def _flush_before_read(ctx, R, roles, T):
                 return False
             if fa[0][0] == "eq" and fa[1] is True and any(x.endswith("attr='send_idx', ctx=Load())") for x in fa[0][1:]) and key(ast.Constant(value=0)) in fa[0][1:]:
                 return False
+            # not (0 < send_idx): the cursor is never negative, so nothing is pending
+            if fa[0][0] == "lt" and fa[1] is False and fa[0][1] == key(ast.Constant(value=0)) and fa[0][2].endswith("attr='send_idx', ctx=Load())"):
+                return False
         return True
     r = g.reach([g.entry], avoid=flushes, exc=False, include_start=True, edge_filter=blocks)
     R.check(bool(flushes) and bool(reads) and not any(x in r for x in reads), "FLUSH-first", f.qualname, "pending outgoing records are flushed before a reply is awaited",
